@@ -33,6 +33,7 @@ import Reamber.Lemmas.SMTol
 import Reamber.Lemmas.SMChanges
 import Reamber.Lemmas.SMGridCompat
 import Reamber.Lemmas.SMLip
+import Reamber.Lemmas.SMNoCR
 import Mathlib.Tactic.NormNum
 import Reamber.Generated.SMTables
 import Mathlib.Tactic.Ring
@@ -1238,6 +1239,34 @@ in its place (`'\r'` in header strings is outside the domain of the file entry p
 theorem file_cr_counterexample :
     univNl ['#','T','I','T','L','E',':','a','\r','b',';'] = ['#','T','I','T','L','E',':','a','\n','b',';'] := by decide
 
+/-- **The writer's text has no carriage return when its inputs have none** (header strings, chart type, description,
+difficulty, the number renderer's outputs; the note rows never have one): with `write_file_read_file`, the file
+written by `write_file` is read by `read_file` as the text is read by `read`. -/
+theorem renderWritten_noCR (sh : Shows) (w : Written) (hstr : ∀ tv ∈ w.strs, '\r' ∉ tv.1 ∧ '\r' ∉ tv.2)
+    (hsel : '\r' ∉ w.selectable) (hrat : ∀ q, '\r' ∉ sh.rat q) (hint : ∀ i, '\r' ∉ sh.int i)
+    (hch : ∀ c ∈ w.charts, '\r' ∉ c.chartType ∧ '\r' ∉ c.description ∧ '\r' ∉ c.difficulty ∧
+      ∀ rows ∈ c.measures, ∀ r ∈ rows, '\r' ∉ r) : '\r' ∉ renderWritten sh w := by
+  unfold renderWritten
+  apply noCR_joinWith
+  · simp [cr_ne.1]
+  · intro line hl
+    rcases List.mem_append.mp hl with hl | hl
+    · exact headerLines_noCR sh w hstr hsel hrat line hl
+    · obtain ⟨ls, hls, hline⟩ := List.mem_flatten.mp hl
+      obtain ⟨c, hc, rfl⟩ := List.mem_map.mp hls
+      obtain ⟨a, b, d, e⟩ := hch c hc
+      exact chartLines_noCR sh c hrat hint a b d e line hline
+
+/-- **`write_file` → `read_file` on the writer's own text**: with inputs free of carriage returns, `read_file` of the
+file `write_file` stores is `read` of the text, and the file's content denotes what the text denotes. -/
+theorem write_file_read_file_written (sh : Shows) (w : Written) (hstr : ∀ tv ∈ w.strs, '\r' ∉ tv.1 ∧ '\r' ∉ tv.2)
+    (hsel : '\r' ∉ w.selectable) (hrat : ∀ q, '\r' ∉ sh.rat q) (hint : ∀ i, '\r' ∉ sh.int i)
+    (hch : ∀ c ∈ w.charts, '\r' ∉ c.chartType ∧ '\r' ∉ c.description ∧ '\r' ∉ c.difficulty ∧
+      ∀ rows ∈ c.measures, ∀ r ∈ rows, '\r' ∉ r) :
+    SM.readFile (renderWritten sh w) = SM.read (renderWritten sh w) ∧
+    denote (univNl (renderWritten sh w)) = denote (renderWritten sh w) :=
+  write_file_read_file _ (renderWritten_noCR sh w hstr hsel hrat hint hch)
+
 /-! ### charts without objects -/
 
 /-- **The hypothesis `c.notes ≠ []` of `ChartWritten` is not a restriction of the writer**: for a chart without objects
@@ -1283,7 +1312,7 @@ NOT proved (`write_read_exact` for the whole file stays `_partial`):
 * not proved: that tempo rows at one offset in memory are written so that the later row is in force (the link from
   `toTimingMap` with tied rows to `effectivePairs` of the written pairs — compared on every tied case by (S)); the time
   bound with the longest beat length *between* a row and its object (`written_time_lipschitz` has the longest of the
-  whole list); `'\r' ∉ renderWritten` from the inputs.
+  whole list).
 The check evaluates the whole composition on every case (S).
 -/
 
